@@ -226,10 +226,11 @@ def accRefine (subtractRemoved : Bool) (s : AccState) : AccState :=
       script := rest }
 
 /-- extend–split discipline (`SpatiallyAdaptivBase.evaluate_operation` + `Integration.evaluate_area`): only
-`get_new_areas()` are computed and ADDED to the running `integral`; nothing records that they were already added.
-The indicators are recomputed (assigned), not accumulated. -/
+`get_new_areas()` are computed and ADDED to the running `integral`; since repo commit 48b37d3 the evaluation ends with
+`refinement.clear_new_objects()` (`startNewObjects = len(objects)`): nothing is new any more, a second evaluation without
+a refinement in between adds nothing.  The indicators are recomputed (assigned), not accumulated. -/
 def incEval (s : AccState) : AccState × Obs :=
-  let s' := { s with acc := s.acc + sumR (s.areas.drop s.startNew), vols := s.areas }
+  let s' := { s with acc := s.acc + sumR (s.areas.drop s.startNew), vols := s.areas, startNew := s.areas.length }
   (s', s'.obs)
 
 /-- dimension-wise discipline (`initialize_evaluation_dimension_wise` resets `integral`, every component grid is
